@@ -281,6 +281,8 @@ def known_findings():
         d = {'kind': m.group(1), 'property': m.group(2), 'rest': m.group(3)}
         mu = re.search(r'unit=(\S+)', m.group(3))
         d['unit'] = mu.group(1) if mu else None
+        ml = re.search(r'label=(\S+)', m.group(3))
+        d['label'] = ml.group(1) if ml else None
         mw = re.search(r'witness=(\S+)', m.group(3))
         d['witness'] = mw.group(1) if mw else None
         d['text'] = m.group(3).split('::', 1)[1].strip() if '::' in m.group(3) else m.group(3)
